@@ -18,9 +18,12 @@ from lang import *
 SCHEDULES_QUICK = [("every1-full", {"every": 1, "force_full": True}), ("every2", {"every": 2}), ("every7-full", {"every": 7, "force_full": True}),
                    ("lowthreshold", {"next_gc": 2048})]
 # C05 also runs the second value representation (--features nan_boxing): a "build" key selects it
-SCHEDULES_C05_EXTRA_QUICK = [("nan_boxing:every1-full", {"every": 1, "force_full": True, "build": "nb"})]
+# ... and laythe_core's own gc_stress feature ("gs"): a full collection at every allocation and at every reserve that does
+# not grow, i.e. at every call's stack check whatever the fill level of the stack
+SCHEDULES_C05_EXTRA_QUICK = [("nan_boxing:every1-full", {"every": 1, "force_full": True, "build": "nb"}), ("gc_stress", {"build": "gs"})]
 SCHEDULES_C05_EXTRA_THOROUGH = [("nan_boxing:every1-full", {"every": 1, "force_full": True, "build": "nb"}), ("nan_boxing:every2", {"every": 2, "build": "nb"}),
-                                ("nan_boxing:every7-full", {"every": 7, "force_full": True, "build": "nb"}), ("nan_boxing:lowthreshold", {"next_gc": 2048, "build": "nb"})]
+                                ("nan_boxing:every7-full", {"every": 7, "force_full": True, "build": "nb"}), ("nan_boxing:lowthreshold", {"next_gc": 2048, "build": "nb"}),
+                                ("gc_stress", {"build": "gs"})]
 SCHEDULES_THOROUGH = SCHEDULES_QUICK + [("every1", {"every": 1}), ("every3-full", {"every": 3, "force_full": True}), ("every5", {"every": 5}),
                                         ("every13", {"every": 13})]
 
@@ -184,8 +187,9 @@ def run(pid, tier, replay=None):
     rnd = random.Random(vlib.seed() * 101 + int(pid[1:]))
     binary = vlib.build_harness()
     scheds = list(SCHEDULES_QUICK if tier == "quick" else SCHEDULES_THOROUGH)
-    binary_nb = None
+    binary_nb = binary_gs = None
     if pid == "C05":
+        binary_gs = vlib.build_harness(gc_stress=True)
         scheds += SCHEDULES_C05_EXTRA_QUICK if tier == "quick" else SCHEDULES_C05_EXTRA_THOROUGH
         binary_nb = vlib.build_harness(nan_boxing=True)
     n = {"C05": 400, "C09": 120, "C20": 100}[pid] if tier == "quick" else {"C05": 5000, "C09": 4000, "C20": 1500}[pid]
@@ -214,7 +218,7 @@ def run(pid, tier, replay=None):
     mismatch_layout = 0
     for sname, sched in scheds:
         sched = dict(sched)
-        use_binary = binary_nb if sched.pop("build", None) == "nb" else binary
+        use_binary = {"nb": binary_nb, "gs": binary_gs, None: binary}[sched.pop("build", None)]
         vmcases = []
         for c in cases:
             d = {"id": c["id"], "files": c["files"], "gc": sched, "max_events": 400000}
@@ -250,7 +254,7 @@ def run(pid, tier, replay=None):
         for sname, sched in scheds:
             fcs = fiber_cases(tier, v) if sname == scheds[0][0] else fcs
             sched = dict(sched)
-            use_binary = binary_nb if sched.pop("build", None) == "nb" else binary
+            use_binary = {"nb": binary_nb, "gs": binary_gs, None: binary}[sched.pop("build", None)]
             vmcases = [{"id": cid, "files": {"main.lay": src}, "gc": sched, "classes": ["sched"], "max_events": 20000} for cid, src, b in fcs]
             res = vlib.run_batch(use_binary, vmcases, per_case_timeout=40)
             for cid, src, b in fcs:
